@@ -180,6 +180,10 @@ def runCase (line : String) : String :=
     | some x => x.enc
     | none => "unmodelled parse"
   | "filter" :: name :: vals => runFilterCase name vals
+  | "sortc" :: name :: vals =>
+    match vals.mapM GoVal.parse with
+    | some (recv :: args) => ArrF.runSortc allFilterImpls (hexDecode name) recv args
+    | _ => "unmodelled parse"
   | "numf" :: x :: steps => runNumfCase x steps
   | ["sprint", v] =>
     match GoVal.parse v with
